@@ -22,6 +22,7 @@ CONSTANTS
  RandChoices <- MC_RandChoices
  Msg <- MC_Msg
  KChoices <- MC_KChoices
+ Sweep <- MC_Sweep
  EMIT <- MC_EMIT
 INIT Init
 NEXT Next
